@@ -109,10 +109,14 @@ def run_case(chk, r, kind, els, pts, active, in_parts, npart, p, tag, coalesce=F
             return
     if packed.index.name != "hilbert_distance":
         chk.violation("pack_partitions/index-name", dict(rep, got=str(packed.index.name)), size=n); return
+    if any(k < 0 or k >= 4 ** p for k in keys):
+        chk.violation("pack_partitions/index-outside-the-curve-range", dict(rep, keys=[k for k in keys if k < 0 or k >= 4 ** p][:6], p=p), size=n); return
     # the Lean packing model with Dask's cut points
     cuts = list(np.cumsum([len(p_) for p_ in got])[:-1])
     out = drive(["pack %s %s" % (tok([int(c) for c in cuts]), tok(want_h))])[0]
     model = untok(out)
+    if not isinstance(model, list):
+        chk.tie_broken(f"correspondence C09: packing model rejects {str(out)[:80]} for cuts={cuts} keys={want_h[:8]}"); return
     model_keys = [[k for k, _ in part] for part in model] if model else []
     if model_keys != [[k for k, _ in part] for part in got]:
         chk.violation("pack_partitions/partition-contents-differ-from-model", dict(rep, impl=[[k for k, _ in part] for part in got], model=model_keys), size=n); return
